@@ -197,8 +197,9 @@ func c18Exec(plan *Plan, st *Stats) *Violation {
 		cur, inBurst, callbacks, bursts, rr := -1, false, 0, 0, 0
 		var step func(r int) bool
 		burstKind := ""
+		root := curGID()
 		burst := func() {
-			if inBurst || settling {
+			if inBurst || settling || curGID() != root {
 				return
 			}
 			callbacks++
